@@ -9,6 +9,8 @@ import ob_outbytes as m
 
 logging.disable(logging.CRITICAL)
 ctx = fw.Ctx("C06", "thorough" if "--thorough" in sys.argv else "quick", int(__import__("os").environ.get("VERIF_SEED", "0")))
+ctx.gen_tables.update(m.regen())     # BEFORE the proof stage: the theorems are checked against the tree under test
+print("regenerated", ctx.gen_tables, "snaplen in run():", m.writer_snaplen())
 if "--no-prove" not in sys.argv:
     t0 = time.time()
     ok = ctx.prove(m.MODULES)
